@@ -19,7 +19,8 @@ From Coq Require Import List NArith ZArith Bool Permutation.
 From SK Require Import lib.Tok lib.LGraph model.C03_Model proof.C03_Spec proof.C03_Proof proof.C03_Glue proof.C03_Backward
                        proof.C03_ExplicitH proof.C03_ExplicitShape proof.C03_ExplicitTotal proof.C03_Expand
                        proof.C03_Link proof.C03_Default proof.C03_Iso
-                       proof.C03_Skeleton proof.C03_StripCounts.
+                       proof.C03_Skeleton proof.C03_StripCounts
+                       proof.C03_Wiring proof.C03_WiringCount.
 Import ListNotations.
 Local Open Scope Z_scope.
 
@@ -294,6 +295,42 @@ Print Assumptions C03_explicitH_shape.
 Theorem C03_explicitH_crash_iff : forall T : its, explicit_h T = None <-> pairs_okb T = false.
 Proof. exact explicit_h_crash_iff. Qed.
 Print Assumptions C03_explicitH_crash_iff.
+
+(** the WIRING of _explicit_h (proof/C03_Spec.v: [share_pair] = two atoms carry a common h_pairs id; [same_group] = its
+    reflexive-transitive closure; [dl_of T n] = reactant-minus-product hydrogen count of atom n): the new bonds are one
+    (donor, H) bond (1,0) and one (H, recipient) bond (0,1) per migration, and for EVERY migration the donor has a
+    hydrogen surplus, the recipient a deficit, and the two are in the SAME hydrogen-transfer group — never two atoms
+    that are not connected through shared pair ids, whatever the order of the atoms in the graph *)
+Theorem C03_explicitH_wiring : forall (T T' : its) (ms : list (N * N)),
+  NoDup (node_ids T) -> explicit_h T = Some (T', ms) ->
+  gedges T' = gedges T ++ new_edges (N.succ (max_id T)) ms /\
+  forall sd : N * N, In sd ms ->
+    same_group T (fst sd) (snd sd) /\ 0 < dl_of T (fst sd) /\ dl_of T (snd sd) < 0.
+Proof. exact explicit_h_wiring. Qed.
+Print Assumptions C03_explicitH_wiring.
+
+(** how often each atom is used ([grouped T x] = x belongs to one of the components the pairing works on): a grouped
+    atom donates exactly its surplus, receives at most its deficit; an atom outside every group is never used *)
+Theorem C03_explicitH_usage : forall (T T' : its) (ms : list (N * N)),
+  explicit_h T = Some (T', ms) ->
+  forall x : N,
+    occurrences x (map fst ms) = (if grouped T x then Z.max 0 (dl_of T x) else 0) /\
+    0 <= occurrences x (map snd ms) <= (if grouped T x then Z.max 0 (- dl_of T x) else 0).
+Proof. exact explicit_h_usage. Qed.
+Print Assumptions C03_explicitH_usage.
+
+(** ... and receives EXACTLY its deficit when every group is exact (as many hydrogens to give as to take) *)
+Theorem C03_explicitH_usage_exact : forall (T T' : its) (ms : list (N * N)),
+  explicit_h T = Some (T', ms) -> pairs_exactb T = true ->
+  forall x : N, occurrences x (map snd ms) = (if grouped T x then Z.max 0 (- dl_of T x) else 0).
+Proof. exact explicit_h_usage_exact. Qed.
+Print Assumptions C03_explicitH_usage_exact.
+
+(** the grouped atoms are exactly the atoms that carry a pair id *)
+Theorem C03_explicitH_grouped_iff : forall (T : its) (x : N),
+  grouped T x = true <-> exists (A : inode) (pid : N), In (x, A) (gnodes T) /\ In pid (hp_of A).
+Proof. exact grouped_iff. Qed.
+Print Assumptions C03_explicitH_grouped_iff.
 
 (** gluing followed by _explicit_h: a balanced rule still yields a balanced reaction whose reactant side has the
     substrate's element counts and, between substrate atoms, exactly the substrate's bonds *)
